@@ -24,6 +24,9 @@ type Decoder struct {
 
 	// see Decoder.ExpectTypesInInterface description
 	expectedTypes []reflect.Type
+
+	// how many decoders of enclosing objects this one works for (see DecodeNestedObject)
+	depth int
 }
 
 // NewDecoder returns a new decoder that reads from r.
